@@ -223,8 +223,24 @@ def _escapes_upward(fn: Function, path_expr: ast.AST) -> Optional[str]:
     return None
 
 
-def run(repo: Repo, rep: Report, tier: str) -> None:
+def _has_switch(fn_node: ast.AST) -> bool:
+    return any(isinstance(n_, ast.If) and "force" in _atoms(n_.test) and any("exists()" in a_ for a_ in _atoms(n_.test)) for n_ in own_nodes(fn_node))
+
+
+def generation_function(repo: Repo) -> Function:
+    """ClientGenerator.generate - or, when its body lives in a private method that generate() wraps (too large to be written out), the method of
+    the class that holds the force / exists switch.  Whatever the wrapper adds (handlers, clean-up helpers) is still covered by the sink /
+    destructive-operation / handler rules, which look at every function of the generation modules."""
     gen = repo.func(GEN)
+    if not _has_switch(gen.node) and gen.cls is not None:
+        holders = [m for m in gen.cls.methods.values() if _has_switch(m.node)]
+        if len(holders) == 1:
+            return holders[0]
+    return gen
+
+
+def run(repo: Repo, rep: Report, tier: str) -> None:
+    gen = generation_function(repo)
     from sa.flatten import flatten as _flgen
 
     # the comparison step may have been extracted into a helper of the class (`if self._differs_from_existing(...)`): write it out
@@ -233,7 +249,10 @@ def run(repo: Repo, rep: Report, tier: str) -> None:
     written_out: Set[str] = set()
 
     def _sel(h) -> bool:
+        # (the whole body may have moved into a private method that `generate` wraps: the method with the force / exists switch is written out as well)
         hit = any(isinstance(c.func, ast.Attribute) and c.func.attr == "_show_diffs" for c in calls_in(h.node)) or (
+            h.cls is not None and h.cls.name == gen.qualname.split(".")[0] and any(
+                isinstance(n_, ast.If) and "force" in _atoms(n_.test) and any("exists()" in a_ for a_ in _atoms(n_.test)) for n_ in own_nodes(h.node))) or (
             h.cls is not None and h.cls.name == gen.qualname.split(".")[0] and h.name.startswith("_") and (
                 any(dotted(c.func) == "shutil.rmtree" for c in calls_in(h.node)) or any(
                     isinstance(w_, ast.While) and any(isinstance(c.func, ast.Attribute) and c.func.attr == "write_text" for c in calls_in(w_)) for w_ in own_nodes(h.node))))
@@ -504,7 +523,7 @@ def run(repo: Repo, rep: Report, tier: str) -> None:
 
     # destructive-operation table
     allowed = {
-        ("pyopenapi_gen.generator.client_generator:ClientGenerator.generate", "shutil.rmtree"): "remove the output package before direct generation",
+        (gen.fq, "shutil.rmtree"): "remove the output package before direct generation",
         ("pyopenapi_gen.emitters.models_emitter:ModelsEmitter._generate_model_file", ".rename()"): "atomic write: <file>.tmp renamed onto <file> inside the models directory",
     }
     for fn, c, kind, pexpr in destructive_seen:
